@@ -597,3 +597,99 @@ def unit1(p, res, prefixes, rule="UNIT-1"):
             else:
                 res.ok(rule, {"fn": f.pretty, "op": op, "unit": _unit_str(ua)} if n % 6 == 1 else None)
     return n
+
+
+# ------------------------------------------------------------------ RAD-4
+_MOVES = {  # callee name -> (dst, dst_col, src, src_col) argument positions (receiver = 0)
+    "vec_znx_dft_apply": (3, 4, 5, 6), "vec_znx_copy": (1, 2, 3, 4), "vec_znx_normalize": (1, 4, 5, 7), "vec_znx_dft_copy": (3, 4, 5, 6),
+    "vec_znx_big_normalize": (1, 4, 5, 7), "vec_znx_idft_apply": (1, 2, 3, 4), "vec_znx_switch_ring": (1, 2, 3, 4),
+}
+
+
+def rad4(p, res, prefixes, rule="RAD-4"):
+    """the two arms of a decision on the equality of two radices do the same thing up to the conversion: for every object both arms fill column by column, the column of the
+    original operand that ends in column c of that object (followed through one staging temporary: `normalize(tmp, 0 <- a, i + 1)`, `dft_apply(dst, i <- tmp, 0)`) is the same
+    function of c in both arms.  The arm the tests never take (equal radices, or different ones) otherwise feeds the key-switch other columns than the arm they do take."""
+    from .sym import Sym, Poly
+    n = 0
+    VT = ("deref", "deref_mut", "borrow", "borrow_mut", "as_mut", "as_ref", "into", "from", "clone", "to_ref", "to_mut", "data", "data_mut")
+    for f in sorted(p.lib_fns(), key=lambda x: x.uid):
+        if f.is_test() or not f.blocks or "test_suite" in f.uid or not f.uid.startswith(prefixes):
+            continue
+        g = None
+        sym = None
+        for bi, blk in enumerate(f.blocks):
+            t = blk["t"]
+            if not t or t["k"] != "Switch" or len(t.get("ts", [])) != 1:
+                continue
+            flow = Flow(f)
+            is_radix = False
+            for r in flow.op_roots(t["o"]):
+                if r[0] == "bin" and f.blocks[r[1]]["s"][r[2]][2]["op"] in ("Eq", "Ne"):
+                    sym = sym or Sym(f, flow)
+                    ops = [sym.operand(o) for o in f.blocks[r[1]]["s"][r[2]][2]["o"]]
+                    if all(any(a[0] == "f" and a[1] == "base2k" for a in _deep_atoms(o)) or (len(o.t) == 1 and any(x[0] == "call" for x in o.atoms())) for o in ops) and \
+                            any(any(a[0] == "f" and a[1] == "base2k" for a in _deep_atoms(o)) for o in ops):
+                        is_radix = True
+            if not is_radix:
+                continue
+            g = g or CFG(f)
+            dom = g.dom()
+            arms = [t["ts"][0][1], t["e"]] if "e" in t else [t["ts"][0][1]] + [s2 for s2 in g.succ[bi] if s2 != t["ts"][0][1]]
+            if len(arms) != 2:
+                continue
+            vflow = Flow(f, transparent=VT)
+
+            def canon(pl):
+                out = {}
+                for mono, c in pl.t.items():
+                    m = tuple(sorted((("v",) if (a[0] == "call" and a[1] == f.uid and (f.callee_def(f.blocks[a[2]]["t"]) or {}).get("n") == "next") else a for a in mono), key=repr))
+                    out[m] = out.get(m, 0) + c
+                return Poly(out)
+            per_arm = []
+            arm_blocks = [set(b for b in g.reach if arm in dom.get(b, ()) or b == arm) for arm in arms]
+            inside = arm_blocks[0] | arm_blocks[1]
+            for blocks in arm_blocks:
+                moves = []
+                for b in sorted(blocks):
+                    tt = f.blocks[b]["t"]
+                    if not tt or tt["k"] != "Call":
+                        continue
+                    pos = _MOVES.get((f.callee_def(tt) or {}).get("n"))
+                    if pos is None or len(tt["a"]) <= max(pos):
+                        continue
+                    d, dc, s_, sc_ = pos
+                    moves.append((frozenset((r[0], r[1]) for r in vflow.op_roots(tt["a"][d])), canon(sym.operand(tt["a"][dc])),
+                                  frozenset((r[0], r[1]) for r in vflow.op_roots(tt["a"][s_])), canon(sym.operand(tt["a"][sc_])), b))
+                written = {D0 for D0, _, _, _, _ in moves}
+                final = {}
+                opaque = set()
+                for D, dc, S, sc_, b in moves:
+                    srcs = [(S, sc_)]
+                    if S in written:
+                        # one level of composition through a staging object written earlier in the same iteration
+                        srcs = [(S0, sc0) for D0, dc0, S0, sc0, b0 in moves if D0 == S and dc0 == sc_ and S0 != S and b0 in dom.get(b, ()) and g.innermost_loop(b0) is g.innermost_loop(b)]
+                        if not srcs:
+                            opaque.add(D)
+                    for S1, sc1 in srcs:
+                        if S1 in written or any(r[0] != "param" and r[1] in inside for r in S1):
+                            opaque.add(D)   # produced inside the arm: not comparable across arms
+                        else:
+                            final.setdefault(D, set()).add((tuple(sorted(S1)), repr(sc1 - dc)))
+                # an object that the arm also reads back as a staging source holds several values in turn: its history is not compared
+                opaque |= {S for _, _, S, _, _ in moves if S in written}
+                per_arm.append((final, opaque))
+            common = [D for D in per_arm[0][0] if D in per_arm[1][0] and D not in per_arm[0][1] and D not in per_arm[1][1]]
+            for D in common:
+                # only objects filled, in both arms, from operands that exist before the decision
+                a0, a1 = per_arm[0][0][D], per_arm[1][0][D]
+                if not a0 or not a1:
+                    continue
+                n += 1
+                if a0 != a1:
+                    res.bad(rule, f.pretty, "arms-move-different-columns",
+                            "%s: on one arm of the radix comparison the object %s is filled from (operand, column offset) %s, on the other from %s: the two arms of the radix decision feed "
+                            "different columns of the operand into the same computation" % (f.pretty, sorted(D), sorted(a0), sorted(a1)), site=f.where(t["l"]))
+                else:
+                    res.ok(rule, {"fn": f.pretty, "object": sorted(D), "moves": sorted(a0)})
+    return n
